@@ -891,6 +891,32 @@ def numeric_oracle(seed):
                 bad.append(("wrong-indicator:int-fit-float-transform", "integer categories seen at fit, the same values as floats at "
                             "transform: the row's indicator is not the one of its value", {"row": i, "value": v, "set": ones}, want))
                 return bad
+    if bad:
+        return bad
+    # a column of pandas `category` dtype that DECLARES a category no training row holds: the training categories are
+    # the values of the rows (a declared-but-absent value is unseen: no indicator column, an error at transform)
+    try:
+        cat = pandas.Categorical(["a", "c", "a", None, "c"], categories=["a", "b", "c"])
+        dfc = pandas.DataFrame({"c": cat, "x": numpy.arange(5, dtype=float)})
+        t = CategoriesToIntegers(columns=["c"]).fit(dfc)
+        out = t.transform(pandas.DataFrame({"c": pandas.Series(["a", "c", "a", None, "c"], dtype=object),
+                                            "x": numpy.arange(5, dtype=float)}))
+        cols = [c for c in out.columns if c != "x"]
+        if sorted(cols) != ["c=a", "c=c"]:
+            bad.append(("categorical-dtype:indicator-columns", "a category declared by the dtype but held by no training "
+                        "row gets an indicator column", sorted(cols), ["c=a", "c=c"]))
+        else:
+            raised = False
+            try:
+                t.transform(pandas.DataFrame({"c": pandas.Series(["b"], dtype=object), "x": [0.0]}))
+            except Exception:  # noqa: BLE001
+                raised = True
+            if not raised:
+                bad.append(("categorical-dtype:unseen-not-raised", "a value no training row holds (only declared by the "
+                            "categorical dtype) is accepted at transform", "returned a frame", "an exception"))
+    except Exception as e:  # noqa: BLE001
+        bad.append(("raises-%s-on-categorical-dtype" % type(e).__name__, "fit/transform raises on a column of category dtype",
+                    "%s: %s" % (type(e).__name__, str(e)[:120]), "indicators c=a, c=c"))
     return bad
 
 
